@@ -38,6 +38,25 @@ real code, against a boring reference model (plain Python: controller name -> in
                 controller declared that way).  The reference model does not know about containers: the space,
                 identifiers, iteration, selection, values and operators must be those of the names listed.
                 Configuration(...) is likewise built from every such kind of iterable of SelectionTuples.
+ part 'orders'  every catalog that is handed to an EXISTING controller (controlled_by = a shared declared Controller, the
+                controller another catalog made for itself, or - all structures with hand-written catalogs - a Controller
+                declared for it) is declared with its members in EVERY other order than the controller's names, and with
+                the last member dropped / renamed / one member added; one catalog at a time and all catalogs of a
+                controller together (thorough: every pair of different orders on two catalogs of one controller); through
+                Catalog(list) and Catalog.from_dict.  Acceptable outcomes: the catalog is refused, or every configuration
+                makes every catalog take the member carrying the NAME its controller selects and the formula equals the
+                hand-written one (text, signature, engine values).
+ part 'treeops' tree operations on the formula with catalogs sitting in EVERY configuration (reached from another one):
+                rename_elementary (5 lists of names x prefix / suffix / both / none, keyword and positional), fix_betas
+                (3 dictionaries x the same options), change_init_values (3 dictionaries), and every history of 2 operations
+                over a reduced alphabet of 6 (second operation resolved against the names produced by the first); applied
+                to the formula whose parameters / variables are one shared object per name, one object per occurrence, and
+                to a deep copy of the configured formula.  Afterwards every observer - set_of_elementary_expression and
+                dict_of_elementary_expression for every type, get_beta_values, get_elementary_expression for every name
+                before / after, embed_expression, requires_draws, check_draws / check_rv / check_panel_trajectory,
+                count_panel_trajectory_expressions, get_status_id_manager, str, signature tree, engine values on a table
+                that holds the renamed columns - must equal that of the hand-written formula of the configuration after
+                the same operations, and the plain-Python reference (the operation applied to the term, stdlib math).
 """
 from __future__ import annotations
 
@@ -58,7 +77,13 @@ TECHNIQUE = ('explicit-state exploration of the configuration graph of 17 (+1 in
              'of the object against the reference model of the last assignment; the static / operator / hidden-state '
              '(thorough: depth-2 history) exploration repeated on the 11 (12) structures with hand-written catalogs with every '
              'catalog under an explicitly declared Controller whose names are handed over as each of 9 kinds of iterable '
-             '(list, tuple, dict keys, re-iterable without len, generator, map, iterator, chain, hand-written one-shot iterator)')
+             '(list, tuple, dict keys, re-iterable without len, generator, map, iterator, chain, hand-written one-shot iterator); '
+             'every catalog handed to an existing controller declared with its members in every other order / one member dropped, '
+             'renamed, added (refused, or behaves like the hand-written formula with alternatives matched by name); every '
+             'configuration x tree operation (rename_elementary, fix_betas, change_init_values with every prefix/suffix option; '
+             'histories of 2) x {shared, per-occurrence elementary objects, deep copy}: all observers of the elementary '
+             'expressions, text, signature and engine values against the hand-written formula after the same operations and '
+             'against the operation applied to the term in plain Python')
 RULE = ('one case per (structure, configuration, listing order) identifier check, per (structure, configuration, '
         'entry point, parameter point) evaluation against the hand-written formula, per visited element of an '
         'iteration, and per operator application (structure, hidden state, argument configuration, operator, step, '
@@ -68,7 +93,10 @@ RULE = ('one case per (structure, configuration, listing order) identifier check
         'not the canonical one; operator applications that change the configuration; Configuration-object histories '
         'whose last assignment changes the configuration or lists it in a non-canonical order. The cases of the '
         '"containers" variants (kind of iterable the controller names are given as, all / only the shared controller declared '
-        'explicitly) are the same cases keyed additionally by the variant. distinct = distinct such keys.')
+        'explicitly) are the same cases keyed additionally by the variant. Part orders: one case per (structure, declared / '
+        'as described, altered catalogs and their alteration, constructor), all non-trivial. Part treeops: one case per '
+        '(structure, configuration, way the elementary objects are held, history of operations); non-trivial when the '
+        'history changes the hand-written formula (or is the observers-only history). distinct = distinct such keys.')
 ASSUMPTIONS = [
     'names of controllers, catalogs and members do not contain the reserved characters ";" and ":" and catalog '
     'names are unique in a formula (the library reserves / requires this)',
@@ -81,6 +109,13 @@ ASSUMPTIONS = [
     'a Controller may be declared with ANY iterable of distinct names (signature Iterable[str]), one-shot iterators included; '
     'the iterable is read in its own order; unordered containers (set) are not in the alphabet; Catalog(named_expressions) is '
     'declared as a list and is always given a list',
+    'tree operations: the new names produced by a renaming (prefix + name + suffix) are neither in the list of names to '
+    'rename nor already used in the formula (histories violating this are skipped and counted), so that the result does not '
+    'depend on how many times a shared object is visited; a tree operation is compared in the configuration in which it '
+    'was applied (what members that were not selected look like afterwards is outside the statement); names listed as a list',
+    'a catalog handed to a controller whose names it does not list in the same order may be refused (any exception raised '
+    'by the library while it is declared counts as refused) or accepted; if accepted, "matching alternative" means the member '
+    'carrying the name the controller selects; a catalog lacking one of the names must be refused',
     'structures are bounded: <= 3 controllers, <= 4 selections per controller, <= 12 configurations per structure (24 in the thorough tier)',
 ]
 ANCHOR_FILES = ['src/biogeme/catalog.py', 'src/biogeme/controller.py', 'src/biogeme/configuration.py',
